@@ -109,7 +109,12 @@ impl<'a> Reduced<'a> {
 
 impl ReducedWord {
     pub const fn one(ring: &ConstSingleDivisor) -> Self {
-        Self(1 << ring.shift())
+        if ring.divisor() == 1 {
+            // the ring with modulus 1 has the single element 0 (1 << shift is the normalized divisor)
+            Self(0)
+        } else {
+            Self(1 << ring.shift())
+        }
     }
 
     #[inline]
